@@ -94,6 +94,7 @@ func c19Run(raw []byte) (*Line, error) {
 	for _, root := range c.Roots {
 		l.I(root).B(c.Nil)
 		mutated := false
+		domReread := func() bool { return true } // re-reads the DomTree of this root, once there is one
 		// IDom
 		var idom []int
 		p, _ := catch(func() { idom = graphalg.IDom(bg, root) })
@@ -116,8 +117,10 @@ func c19Run(raw []byte) (*Line, error) {
 			ids := make([]int, 0, n)
 			ins := make([][]int, 0, n)
 			outs := make([][]int, 0, n)
+			var tree *graphalg.DomTree
 			p, _ = catch(func() {
 				t := graphalg.Dom(idom)
+				tree = t
 				nn = t.NumNodes()
 				for k := 0; k < nn; k++ {
 					ids = append(ids, t.IDom(k))
@@ -125,6 +128,20 @@ func c19Run(raw []byte) (*Line, error) {
 					outs = append(outs, append([]int{}, t.Out(k)...))
 				}
 			})
+			if !p {
+				domReread = func() bool { return c19DomUnchanged(tree, nn, ids, ins, outs, same) }
+				// a caller may append to any slice a result hands out; that must not change any
+				// OTHER result (nor the argument): sentinel appends, then everything is read again
+				if pa, _ := catch(func() {
+					for k := 0; k < nn; k++ {
+						_ = append(tree.Out(k), c19Sentinel)
+						_ = append(tree.In(k), c19Sentinel)
+					}
+					_ = append(idom, c19Sentinel)
+				}); pa || !domReread() {
+					mutated = true
+				}
+			}
 			if p {
 				l.I(2).I(0).I(0)
 			} else {
@@ -153,6 +170,28 @@ func c19Run(raw []byte) (*Line, error) {
 			for _, s := range df {
 				l.Is(s)
 			}
+			// the frontier lists must not alias each other (nor the graph, nor idom): append a
+			// sentinel to every one of them, then compare all of them with what was written above
+			snap := make([][]int, len(df))
+			for i, s := range df {
+				snap[i] = append([]int{}, s...)
+			}
+			for _, s := range df {
+				_ = append(s, c19Sentinel)
+			}
+			for i, s := range df {
+				if !same(s, snap[i]) {
+					mutated = true
+				}
+			}
+		}
+		// the tree built before DomFrontier ran must still read the same
+		if pr, _ := catch(func() {
+			if !domReread() {
+				mutated = true
+			}
+		}); pr {
+			mutated = true
 		}
 		if idom != nil && !same(idom, idomSnap) {
 			mutated = true
@@ -163,6 +202,23 @@ func c19Run(raw []byte) (*Line, error) {
 		l.B(mutated)
 	}
 	return l, nil
+}
+
+// the value a caller appends to result slices: not a node id, so an overwritten entry never
+// coincides with a correct one
+const c19Sentinel = -7
+
+// every accessor of the tree read again and compared with the first reading
+func c19DomUnchanged(t *graphalg.DomTree, nn int, ids []int, ins, outs [][]int, same func(a, b []int) bool) bool {
+	if t.NumNodes() != nn {
+		return false
+	}
+	for k := 0; k < nn; k++ {
+		if t.IDom(k) != ids[k] || !same(t.In(k), ins[k]) || !same(t.Out(k), outs[k]) {
+			return false
+		}
+	}
+	return true
 }
 
 // ---------- generators ----------
